@@ -8,7 +8,8 @@ import SageModel.Model.C14
 The model runs at `Float` (IEEE f64, native `exp`/`pow`/`sqrt`, SEQUENTIAL kernel sum).
 
 **agree** — the implementation's value at every sweep point is compared with the model's within
-`K·2⁻⁵²·max(|lower|,|upper|)` (the two model bins the point interpolates between), `K = 4·n + 32`,
+`(K·2⁻⁵² + tailAmp)·max(|lower|,|upper|)` (the two model bins the point interpolates between), `K = 4·n + 32`,
+`tailAmp = 746·16·2⁻⁵³` (Gaussian-tail amplification of a last-bit difference in `pow`/the bandwidth, see `tailAmp`),
 plus an absolute `1e-290` for the subnormal range. Why a bound and not equality (since /repo 2c91348 `Kde::pdf` sums
 sequentially like the model; the bound is kept because `exp`/`pow` may still differ, and it covers the
 older code): `Kde::pdf` summed
@@ -27,7 +28,8 @@ own grid points):
 * `grid_antitone` (monotonic mode) grid values never increase with the bin index;
 * `grid_bayes`   grid value `i` = running maximum from the top of the textbook Bayes ratio of
                  Gaussian KDEs (`specDensity`, `specBandwidth`, `specBayes`, `specEnvelope`)
-                 recomputed here, within the bound above;
+                 recomputed here, within the bound above (including `tailAmp`: the textbook formula's
+                 bandwidth may differ from the code's by an ulp, amplified by `z²` in the tails);
 * `interp`       every other sweep point: the value equals the linear interpolation between the
                  implementation's own two neighbouring grid values (hence lies between them);
 * `sweep_antitone` (monotonic mode) along the sorted sweep the value never increases.
@@ -65,6 +67,17 @@ def parseReq : P Req := do
   pure { scores := pairs.map (·.1), decoys := pairs.map (·.2), nbins, adj, mono, sweep := sweep.toArray }
 
 def u : Float := Float.ofBits 0x3CA0000000000000   -- 2⁻⁵³
+
+/-- Gaussian-tail amplification, part of every comparison of a Bayes ratio with a RECOMPUTED one.
+    A kernel value is `exp(a)`, `a = -((x-xi)/h)²/2`; a relative perturbation `ε` of `a` changes it by the
+    relative amount `|a|·ε`, and `exp` returns 0 below `a ≈ -745.13`, so for every non-zero kernel value
+    `|a| ≤ 746`. Between two algebraically equal ways of writing the density `ε` is a few `2⁻⁵³`: the three
+    roundings of `a`, and — squared, hence doubled — the one or two ulps by which the bandwidths differ
+    (the textbook `4/(3n)` against the code's `(4/3)/n`; `pow` of two libms). With numerator and
+    denominator of the ratio both affected: `746·16·2⁻⁵³ ≈ 1.3e-12` relative. (False alarm of 2026-10:
+    seed 123, a `kdepool` case, non-monotonic, grid point 32 bandwidths below the decoys: the two
+    bandwidths differed by one ulp, the ratios by 4.5e-13 relative, the old allowance was 8.1e-14.) -/
+def tailAmp : Float := 746 * 16 * u
 
 /-- number of distinct bit patterns -/
 def distinctCount (l : List Float) : Nat :=
@@ -144,7 +157,7 @@ def specCheck (r : Req) (minS maxS step : Float) (v : Array Float) : Option Stri
   let K : Float := ofNat (4 * r.scores.length + 32)
   for i in [0:n] do
     let m := [at0 S (i-1), at0 S i].foldl (fun a b => if a < absF b then absF b else a) 0
-    let tol := (K * 2 * u + cond) * m + 1e-290
+    let tol := (K * 2 * u + tailAmp + cond) * m + 1e-290
     if !(absF (at0 G i - at0 S i) ≤ tol) then return some (fmtIdx "grid_bayes" i)
   -- interpolation between the implementation's own grid values
   for k in [n:v.size] do
@@ -204,7 +217,7 @@ def handleKde (args impl : List String) : Option Reply := do
         let L := absF (at0 bins lo)
         let U := absF (at0 bins hi)
         let m := if L < U then U else L
-        absF (a - b) ≤ K * 2 * u * m + 1e-290
+        absF (a - b) ≤ (K * 2 * u + tailAmp) * m + 1e-290
     | none, _, _ => impl == ["panic"]
     | _, _, _ => false
   -- spec on the implementation's reply
@@ -397,7 +410,7 @@ def specValue (m : SeqModel) (s : Float) : Float × Float :=
   let D := absF (lo - at0 m.S (j-1)) + absF (hi - lo) + (if j + 2 < n then absF (at0 m.S (j+2) - hi) else 0)
   let K : Float := ofNat (4 * m.req.scores.length + 32)
   (lo + (hi - lo) * t,
-   (K * 2 * u + 16 * u) * M + D * (16 * u * (absF sc + absF m.minS + absF m.maxS) / m.step) + 1e-290)
+   (K * 2 * u + tailAmp + 16 * u) * M + D * (16 * u * (absF sc + absF m.minS + absF m.maxS) / m.step) + 1e-290)
 
 def handleKdeSeq (args impl : List String) : Option Reply := do
   let (reqs, steps) ← run (do
@@ -439,7 +452,7 @@ def handleKdeSeq (args impl : List String) : Option Reply := do
             let L := absF (at0 bins lo)
             let U := absF (at0 bins (binHi e lo))
             let K : Float := ofNat (4 * m.req.scores.length + 32)
-            absF (a - b) ≤ K * 2 * u * (if L < U then U else L) + 1e-290
+            absF (a - b) ≤ (K * 2 * u + tailAmp) * (if L < U then U else L) + 1e-290
           | none => false)
        | none => false)
     | _, _ => false
